@@ -55,7 +55,7 @@ fn gen_full_system(seed: u64) -> Plan {
     }
     if health {
         for k in 0..(1 + rng.below(6)) {
-            plan.step(30_000 + rng.below(end - 29_000), Action::Health { id: k as u32 });
+            plan.step(30_000 + rng.below(end - 29_000), Action::Health { id: k as u32, reset: false });
         }
     }
     // long enough for the reporter (1 s loop) to run into the injected file errors
@@ -110,6 +110,10 @@ fn check(plan: &Plan, out: &RunOut) -> CheckOut {
     co.nontrivial = !v.recvs.is_empty();
     monitor_leak(&mut co, out);
     check_no_panic(&mut co, "C08", out);
+    // "processing returns normally, and a valid request ... is answered": every valid request a
+    // worker has read gets its (one) send attempt, whatever failed before it in the same batch,
+    // and nothing is left unread at the end
+    check_exactly_once(&mut co, "C08", &v, out, true);
     if out.outcome == dsim::Outcome::StepCap {
         co.violate("C08", "wedged", "C08|step_cap".into(), "the run hit the scheduler step cap: a task is spinning".into());
     }
